@@ -715,6 +715,8 @@ def run_shard(job: dict[str, Any]) -> dict[str, Any]:
                 gl = (case["obj"].get("get") or {}).get("length")
                 if isinstance(gl, int) and gl < len(stored) and not took_parallel:
                     undetectable = "get_content_length_smaller_than_body_is_http_framing"
+                if (case["obj"].get("get") or {}).get("endless") and not took_parallel:
+                    undetectable = "endless_body_cut_by_declared_length_is_http_framing"
                 rmode = (case["obj"].get("range") or {}).get("mode")
                 if took_parallel and rmode in ("shift_lying", "no_cr"):
                     undetectable = f"range_{rmode}_carries_no_evidence"
@@ -739,15 +741,15 @@ def run_shard(job: dict[str, Any]) -> dict[str, Any]:
                     )
                     lies = _lies(case)
                     if not lies:
-                        culprit = "honest_origin"
-                    elif how == "same_length_wrong_content" and "range_shift_honest" in lies:
+                        culprit = f"{how}:honest_origin"
+                    elif took_parallel and "range_shift_honest" in lies:
                         culprit = "shifted_content_range_accepted"
-                    elif how == "truncated" and lies & {"head_content_length", "probe_206_total_lie"}:
+                    elif took_parallel and lies & {"head_content_length", "probe_206_total_lie"}:
                         culprit = "short_probe_length_accepted"
                     else:
-                        culprit = "+".join(sorted(lies))[:60]
+                        culprit = how + ":" + "+".join(sorted(lies))[:60]
                     chk.violation(
-                        f"wrong_bytes:{'parallel' if took_parallel else 'single'}:{how}:{culprit}",
+                        f"wrong_bytes:{'parallel' if took_parallel else 'single'}:{culprit}",
                         f"fetch returned {len(data)} bytes that are not the object's decoded bytes ({how}; object {len(plain)} plain / {len(stored)} stored)",
                         wit,
                     )
@@ -894,7 +896,7 @@ def main(tier: str, seed: int) -> int:
     ]
     sysc = systematic_cases()
     rng = random.Random(f"c31:{seed}")
-    nrand = 260 if tier == "quick" else 6000
+    nrand = 260 if tier == "quick" else 24000
     pool = [c for c in sysc if "bomb" not in c["faults"][0]]
     rnd = [random_case(rng, 100_000 + i, pool) for i in range(nrand)]
     allc = sysc + rnd
